@@ -20,6 +20,7 @@ def cp(s):
 
 async def s3_trace(rng, page, nops):
     fake = fakes3.FakeS3(page_size=page, verify_signatures=False)
+    fake.op_limit = 10 ** 9        # the per-operation request limit guards adapter runaways; here requests are issued directly
     c = httpx.AsyncClient(transport=fake.transport())
     idx = {n: i + 1 for i, n in enumerate(NAMES)}
     evs = []
@@ -61,6 +62,7 @@ async def s3_trace(rng, page, nops):
 
 async def b2_trace(rng, page, nops):
     fake = fakeb2.FakeB2(page_size=page)
+    fake.op_limit = 10 ** 9
     c = httpx.AsyncClient(transport=fake.transport())
     idx = {n: i + 1 for i, n in enumerate(NAMES)}
     auth = (await c.get('https://api.backblazeb2.com/b2api/v2/b2_authorize_account', auth=(fake.key_id, fake.app_key))).json()
